@@ -85,6 +85,14 @@ def horiz_angle(f, l, r):
     return math.acos(max(-1.0, min(1.0, c)))
 
 
+def signed_angle(f, l, r):
+    """bearing(right) - bearing(left) in the horizontal plane of f, clockwise, in [0, 2 pi)"""
+    b, lam, _ = xyz2blh(*f)
+    R = frame(b, lam)
+    a, c = rot_t(R, sub(l, f)), rot_t(R, sub(r, f))
+    return (math.atan2(c[1], c[0]) - math.atan2(a[1], a[0])) % (2 * math.pi)
+
+
 def r17(x):
     return repr(float(x))
 
@@ -197,7 +205,7 @@ def gen_network(rng, family=None):
     pts = make_points(rng, n, lat, lon, size)
     clusters = []
     exact = True
-    amp = 0.4
+    amp = 0.25      # |rhs| of a vector stays below tol-abs = 1 m (2 * sqrt(3) * 0.25 = 0.87)
     pairs = tree_and_chords(rng, n, rng.randint(1, n))
     # vectors: one cluster per vector, or a few multi-vector clusters with one covariance matrix
     def add_vectors(pairs):
@@ -254,6 +262,14 @@ def gen_network(rng, family=None):
         if family == "vec-angle":
             for _ in range(rng.randint(1, 3)):
                 i, j, k = rng.sample(range(n), 3)
+                sa = signed_angle(pts[i]["true"], pts[j]["true"], pts[k]["true"])
+                if sa > math.pi:
+                    # g3 compares the observed value with acos(...) in [0, 200 gon]: an angle above 200 gon
+                    # cannot be expressed (finding C19-G4); generate the supported orientation only
+                    j, k = k, j
+                    sa = 2 * math.pi - sa
+                if sa < 0.15 or sa > math.pi - 0.15:
+                    continue
                 clusters.append({"obs": [{"t": "angle", "from": pts[i]["id"], "left": pts[j]["id"], "right": pts[k]["id"],
                                           "v": horiz_angle(pts[i]["true"], pts[j]["true"], pts[k]["true"]) * GON}],
                                  "cov": spd(rng, 1, 0, 100.0)})
